@@ -50,10 +50,15 @@ CLAIMS = {
   technique="static analysis: data/control-dependence (P-ORG) of key fields, field-effect sets and CFG must-follow/must-precede of invalidators on go/ssa",
   ref="DESIGN.md §4 C13"),
  "C14": dict(
-  text="Cache transparency of FontMap, structurally: (R-INV) every writer of a field read by ResolveFace's miss path other than the key components (query, script) clears the rune LRU, and every writer of a field read by buildCandidates resets built, on every path through the write or in every caller up to the exported API. Totality (non-nil result) and the substitution scoring are not decided.",
+  text="Cache transparency and step order of FontMap, structurally: (R-INV) every writer of a field read by ResolveFace's miss path other than the key components (query, script) clears the rune LRU, and every writer of a field read by buildCandidates resets built, on every path through the write or in every caller up to the exported API; (R-KEY/hash) the LRU key hashes the query families and runeLRU.Get returns a hit only on the equal edge of an exact comparison of them; (R-STEPS) on the miss path buildCandidates runs first and the four documented searches occur in order on every path, each returning the face it finds before a later step, and every path of buildCandidates that sets built has run the substitution pass, the user-font pass and the aspect narrowing. Totality (non-nil result) and the substitution scoring are not decided.",
   note="field-based effects; exempt fields (idempotent memos, scratch buffers, logger) are listed with reasons in sa/c13.go; the LRU key function itself is trusted to include query, script and rune",
   technique="static analysis: field-effect sets over the VTA call graph + CFG must-follow/must-precede of invalidators on go/ssa",
   ref="DESIGN.md §4 C14"),
+ "C15": dict(
+  text="One structural clause of the style-matching property: (R-STEPS) retainsBestMatches returns filterByWeight(filterByStyle(filterByStretch(candidates, matchStretch), matchStyle), matchWeight) with each matcher evaluated on exactly the list its filter narrows and asked for the corresponding field of the query after SetDefaults (stretch, then style, then weight). The search orders inside the three matchers (boundaries at 400/500 and StretchNormal) are comparisons on runtime floats and are NOT decided; the finite grid enumeration the property suggests is a dynamic technique.",
+  note="SSA expression-tree match of the narrowing chain; anchored on the function names of fontscan/match.go",
+  technique="static analysis: dataflow chain (SSA def-use) and must-precede on go/ssa",
+  ref="DESIGN.md §4 C15"),
  "C17": dict(
   text="Static effect argument for 'a parsed font can be shared': no function that can run after package initialisation writes memory derived from a package-level variable (R-GLOBAL, only exemption: a direct store inside a literal passed to sync.Once.Do), and no function reachable from the exported API outside constructors writes memory derived from any *font.Font (R-FONT; subsumes caching a per-goroutine object on the font). All mutation kinds are covered (stores, map updates, copy/append destinations, delete/clear, sort.*, binary Put*, io.Read*). Absence of such writes implies absence of data races on that memory under every schedule; equality of concurrent and sequential results beyond that is not decided.",
   note="origin tracking is context-insensitive and field-based; references stored as elements of non-derived containers are re-discovered by type only; stdlib/x-text/x-image trusted; no unsafe/reflect/cgo (checked)",
